@@ -13,14 +13,22 @@ ENV.setdefault("CARGO_NET_OFFLINE", "true")
 ENV["CARGO_TERM_COLOR"] = "never"
 
 MIRI_SHARDS = 16
-MIRI_CASES = 40
 MIRI_TIMEOUT = 2400
 
 
-def miri_stage(prop, seed, report, stages):
+MIRI_MODES = {
+    # mode: (cases per shard, what the workload is)
+    "codec": (40, "canonical codec workload (x ~12 encode/decode calls per case incl. mutated inputs and MaybeUninit array paths)"),
+    "compress": (12, "fuel-compression [T; S] compress/decompress workload (MaybeUninit arrays, context failing at every call index, heap-owning elements)"),
+    "merkle": (5, "in-memory sparse and binary Merkle tree workload (MerkleTreeKey constructors, update/delete/proof/verify)"),
+}
+
+
+def miri_stage(prop, seed, report, stages, mode="codec"):
     t0 = time.time()
+    MIRI_CASES, what = MIRI_MODES[mode]
     # build once (sysroot + deps), then run the shards in parallel
-    b = subprocess.run(["cargo", "+nightly", "miri", "run", "--offline", "--", str(seed), "1"],
+    b = subprocess.run(["cargo", "+nightly", "miri", "run", "--offline", "--", str(seed), "1", mode],
                        cwd=MIRI_DIR, env=ENV, stdout=subprocess.PIPE, stderr=subprocess.STDOUT, text=True,
                        timeout=MIRI_TIMEOUT)
     if "MIRI-OK" not in b.stdout and "error: Undefined Behavior" not in b.stdout:
@@ -30,7 +38,7 @@ def miri_stage(prop, seed, report, stages):
     procs = []
     for sh in range(MIRI_SHARDS):
         s = seed * 1000 + sh + 1
-        procs.append((s, subprocess.Popen(["cargo", "+nightly", "miri", "run", "--offline", "--", str(s), str(MIRI_CASES)],
+        procs.append((s, subprocess.Popen(["cargo", "+nightly", "miri", "run", "--offline", "--", str(s), str(MIRI_CASES), mode],
                                           cwd=MIRI_DIR, env=ENV, stdout=subprocess.PIPE, stderr=subprocess.STDOUT, text=True)))
     cases, bad, reason = 0, 0, None
     for s, p in procs:
@@ -40,7 +48,7 @@ def miri_stage(prop, seed, report, stages):
             p.kill()
             reason = "a miri shard timed out"
             continue
-        m = re.search(r"MIRI-OK cases=(\d+)", out)
+        m = re.search(r"MIRI-OK (?:mode=\w+ )?cases=(\d+)", out)
         if m and p.returncode == 0:
             cases += int(m.group(1))
             continue
@@ -51,14 +59,14 @@ def miri_stage(prop, seed, report, stages):
         sig = f"{prop}|miri|{kind}|" + re.sub(r"0x[0-9a-f]+|alloc\d+|\d+", "N", first)[:120]
         report.setdefault("violations", []).append({
             "signature": sig,
-            "what": f"Miri reported {kind} in the canonical codec workload (shard seed {s}): {first[:400]}",
-            "replay": {"kind": "miri", "cmd": f"cd /verif/harness-miri && cargo +nightly miri run --offline -- {s} {MIRI_CASES}"}})
+            "what": f"Miri reported {kind} in the {mode} workload (shard seed {s}): {first[:400]}",
+            "replay": {"kind": "miri", "cmd": f"cd /verif/harness-miri && cargo +nightly miri run --offline -- {s} {MIRI_CASES} {mode}"}})
         vc = report.setdefault("violation_counts", {})
         vc[sig] = vc.get(sig, 0) + 1
         bad += 1
     report.setdefault("counters", {})["miri_cases_interpreted"] = cases
     report.setdefault("notes", []).append(
-        f"Miri interpreted {cases} codec cases (x ~12 encode/decode calls incl. mutated inputs and MaybeUninit array paths) in {MIRI_SHARDS} shards; diagnostics: {bad}")
+        f"Miri interpreted {cases} cases of the {what} in {MIRI_SHARDS} shards; diagnostics: {bad}")
     stages.append({"stage": "miri (cargo +nightly miri run, harness-miri)", "ok": bad == 0, "cases": cases,
                    "wall_s": round(time.time() - t0, 1)})
     if cases == 0 and bad == 0:
@@ -103,6 +111,10 @@ def extra_stages(prop, tier, seed, report, stages):
     reason = None
     if prop in ("C01", "C02"):
         reason = miri_stage(prop, seed, report, stages)
+    if prop == "C07":
+        reason = miri_stage(prop, seed, report, stages, mode="compress")
+    if prop in ("C09", "C10", "C12", "C14"):
+        reason = miri_stage(prop, seed, report, stages, mode="merkle")
     if prop in ("C16", "C17"):
         reason = valgrind_stage(prop, seed, report, stages)
     return report, reason
